@@ -107,6 +107,13 @@ Definition eff (s : estate) (e : expr) : option (nat * nat) :=
       | SPart _ => Some (1, uu e)
       | SDone => Some (S (length args), uu e)
       end
+  | EReturn _ _ => match s with SDone => Some (1, uu e) | _ => Some (0, uu e) end
+  | EMatch _ _ _ =>
+      match s with
+      | SNot => Some (0, uu e)
+      | SPart _ => Some (1, uu e)
+      | SDone => Some (0, 0)
+      end
   | _ => None
   end.
 
